@@ -25,7 +25,8 @@ GLOBAL_CONSTS = {}   # qualname of a module global -> type string (a distinguish
 
 
 class Clause:
-    def __init__(self, expr, carries=None, label=None, witness=None):
+    def __init__(self, expr, carries=None, label=None, witness=None, assumed=False):
+        self.assumed = assumed          # a `requires` clause that call sites do NOT have to establish (listed as an assumption)
         self.witness = witness or {}    # exists-variable -> expression over the function's final locals
         self.expr = expr
         self.carries = carries          # "C04" or "C04,C15" or None (= internal)
@@ -92,7 +93,8 @@ class Contract:
                  self_type=None, ghost=None, fresh_result=False, notes='',
                  total=True, locals=None, may_raise_other=False, decreases=None,
                  asserts=(), frame_carries=None, escape_carries=None, hints=(), inst=(),
-                 static_ensures=(), any_kwargs=False, inline_calls=(), no_alias_stores=False):
+                 static_ensures=(), any_kwargs=False, inline_calls=(), no_alias_stores=False, ghost_entry=()):
+        self.ghost_entry = list(ghost_entry)   # ghost assignments [(field of self, literal expr)] executed on entry to the body
         self.qualname = qualname
         self.params = dict(params or {})
         self.returns = returns
